@@ -214,6 +214,13 @@ impl<T> JoinSet<T> {
     }
 }
 #[derive(Debug)] pub struct JoinError;
+// tokio: a JoinError is a cancellation or a panic; `into_panic` PANICS on a cancellation
+impl JoinError {
+    pub fn is_cancelled(&self) -> bool { true }
+    pub fn is_panic(&self) -> bool { false }
+    pub fn into_panic(self) -> Box<dyn std::any::Any + Send + 'static> { panic!("`JoinError` reason is not a panic.") }
+    pub fn try_into_panic(self) -> std::result::Result<Box<dyn std::any::Any + Send + 'static>, JoinError> { Err(self) }
+}
 impl Config { pub fn shutdown_idle_timeout(&self) -> std::time::Duration { std::time::Duration::from_millis(1000) } }
 pub struct ConnectionManagerRequest;
 // quinn::ConnectionError (payloads dropped) and a one-poll executor for the async tail of the request handler
